@@ -163,3 +163,68 @@ class ObjectCoercerBody(Contract):
 
 
 CONTRACTS += [CompleteObjectValue(), ObjectCoercerBody()]
+
+
+# ---- Resolver.bake: the decorated implementation lands on the field it names, its type resolver on that field's abstract type under that field
+FieldByName = z3.Function('SchemaFieldByName', V, V, V)       # schema.get_field_by_name("Type.field")
+NoSuchField = z3.Function('SchemaHasNoSuchField', V, V, BoolS)
+WrappedTypeOf = z3.Function('UnwrappedTypeOf', V, V, V)       # get_wrapped_type(get_graphql_type(schema, ref))
+
+
+class ResolverBake(Contract):
+    """Resolver.bake: the implementation and the per-field options are stored on the field `Type.field` of THIS schema; a type resolver given with the
+    resolver is registered on the field's (unwrapped) abstract type under this very field name (so it wins for this field only: get_type_resolver);
+    a missing implementation or an unknown field is refused"""
+    key = 'tartiflette/resolver/resolver.py::Resolver.bake'
+    property_ids = ('C01', 'C17')
+    params = ['self', 'schema']
+    self_class = 'Resolver'
+    modifies_fields = ('raw_resolver', 'query_arguments_coercer', 'query_list_concurrently', 'query_parent_concurrently', '_fields_type_resolvers')
+    inline = ('tartiflette/types/type.py::GraphQLAbstractType.add_field_type_resolver',)
+    callee_models = {'tartiflette/types/helpers/type.py::get_graphql_type': lambda en, st, a, kw: [(st, V.Tuple(mklist(en.read(a[0], st), en.read(a[1], st))))],
+                     'tartiflette/types/helpers/definition.py::get_wrapped_type': lambda en, st, a, kw: (lambda p: [(st, WrappedTypeOf(nth(V.titems(p), 0), nth(V.titems(p), 1)))])(en.read(a[0], st))}
+
+    def args(self, en, names):
+        self.A = super().args(en, names)
+        return self.A
+
+    def _field(self, A):
+        return FieldByName(A['schema'], attr0(A['self'], 'name'))
+
+    def _wt(self, A):
+        return WrappedTypeOf(A['schema'], attr0(self._field(A), 'gql_type'))
+
+    def pre(self, A, st):
+        me, s = A['self'], A['schema']
+        f, wt = self._field(A), self._wt(A)
+        return [('resolver', z3.And(V.oref(me) >= 0, V.is_Str(attr0(me, 'name')), z3.Or(attr0(me, '_implementation') == V.None_, V.is_Fun(attr0(me, '_implementation'))),
+                                    z3.Or(attr0(me, '_type_resolver') == V.None_, V.is_Fun(attr0(me, '_type_resolver'))))),
+                ('schema', z3.And(exact(s, 'GraphQLSchema'), V.oref(s) >= 0)),
+                ('field', z3.And(exact(f, 'GraphQLField'), V.oref(f) >= 0)),
+                ('field_type', z3.And(z3.Or(exact(wt, 'GraphQLInterfaceType'), exact(wt, 'GraphQLUnionType'), exact(wt, 'GraphQLObjectType'), exact(wt, 'GraphQLScalarType'), exact(wt, 'GraphQLEnumType')),
+                                      V.oref(wt) >= 0, z3.Implies(inst(wt, 'GraphQLAbstractType'), V.is_Dict(fld(st, '_fields_type_resolvers', wt)))))]
+
+    def getattr_hook(self, en, st, v, attr):
+        if attr == 'get_field_by_name' and z3.eq(v, self.A['schema']):
+            def get(en, s, a, kw):
+                n = en.read(a[0], s)
+                return en.branches(s, [(z3.Not(NoSuchField(v, n)), FieldByName(v, n)), (NoSuchField(v, n), Raise(en.exc_new('KeyError', s)))])
+            return [(st, PyFunc('get_field_by_name', get))]
+        return None
+
+    def post(self, A, st0, out):
+        me, s, st = A['self'], A['schema'], out.st
+        impl, tr, name = attr0(me, '_implementation'), attr0(me, '_type_resolver'), attr0(me, 'name')
+        f, wt = self._field(A), self._wt(A)
+        if out.kind == 'raise':
+            return [('refused_only_without_implementation_or_field', z3.Or(z3.And(z3.Not(py_truthy(impl)), exact(out.value, 'MissingImplementation')),
+                                                                          z3.And(py_truthy(impl), NoSuchField(s, name), exact(out.value, 'UnknownFieldDefinition'))))]
+        return [('accepted_only_with_implementation_and_field', z3.And(py_truthy(impl), z3.Not(NoSuchField(s, name)))),
+                ('implementation_on_the_named_field', z3.And(fld(st, 'raw_resolver', f) == impl, fld(st, 'query_arguments_coercer', f) == attr0(me, '_arguments_coercer'),
+                                                             fld(st, 'query_list_concurrently', f) == attr0(me, '_list_concurrently'),
+                                                             fld(st, 'query_parent_concurrently', f) == attr0(me, '_parent_concurrently'))),
+                ('type_resolver_registered_for_this_field_only', z3.Implies(z3.And(py_truthy(tr), inst(wt, 'GraphQLAbstractType')),
+                                                                            lookup(V.ditems(fld(st, '_fields_type_resolvers', wt)), name) == tr))]
+
+
+CONTRACTS.append(ResolverBake())
